@@ -174,7 +174,7 @@ def main(argv):
             for b in bad:
                 print(b)
             return 2
-        print("%d source normal forms: ok" % len(nf_selftest.CASES))
+        print("%d source normal forms: ok" % (len(nf_selftest.CASES) + 1))
         try:
             kinds = slips.selftest()
         except AnalysisError as e:
